@@ -304,7 +304,7 @@ def scn(sym, cov, calls, cancel=None, stop_cancel=None, eager=False, T=1, J=1):
 def units(tier):
     quick = tier == "quick"
     us = []
-    B_ = 100 if quick else 1500
+    B_ = 240 if quick else 1500
 
     def add(name, calls, **p):
         p.setdefault("T", 1)
